@@ -1,6 +1,8 @@
 import BppModel.Proto
 import BppModel.ParamList
 import BppModel.ParamListSpec
+import BppModel.ParamListExt
+import BppModel.ParamListExtSpec
 /-
 Driver for C02 (ParameterList / AbstractParametrizable).  Six list registers (0..3 plain
 lists, 4..5 owned by an AbstractParametrizable).  After each operation the whole machine
@@ -8,8 +10,14 @@ state is printed; object identity is printed as a stable number given to each ob
 first time it appears in an answer (the harness does the same from addresses).
 
 The implementation's answers are parsed back into a machine `State` (objects numbered by the
-harness), and the property's clauses (`ParamList.checkStep`) are evaluated on the pair
-(previous implementation state, implementation state after the operation).
+harness), and the property's clauses (`ParamList.xcheckStep`, which contains `checkStep`) are
+evaluated on the pair (previous implementation state, implementation state after the operation).
+
+Round 2: the machine is the extended one (`ParamListExt.xstep`): `setallp` / `setps` are the repaired
+routines, `at` / `param` answer an object (`obj <entry>`; `ub` for an out-of-range `operator[]`, which
+the harness does not execute), `clone` is the copy constructor, `ap.*` are the owner's read routes
+through the namespace and its protected forwarders (= the list-level operation on the owner's list).
+A value token `n'` means n/4 + 2⁻³⁰.
 -/
 namespace Bpp.Drive.C02
 open Bpp Bpp.Proto Bpp.ParamList
@@ -31,9 +39,16 @@ structure St where
 def showName (s : String) : String := if s.isEmpty then "-" else s
 def readName (s : String) : String := if s == "-" then "" else s
 
+/-- the nudge of a value token `n'`: `n/4 + 2⁻³⁰` (an exactly representable double next to a
+grid point, so that "differs" and "equal" are told apart by less than any sensible tolerance) -/
+def nudge : Rat := 1 / 1073741824
+
 def showQ (v : Rat) : String :=
   let x := v * 4
-  if x.den == 1 then toString x.num else "x" ++ toString v.num ++ "/" ++ toString v.den
+  if x.den == 1 then toString x.num
+  else
+    let y := (v - nudge) * 4
+    if y.den == 1 then toString y.num ++ "'" else "x" ++ toString v.num ++ "/" ++ toString v.den
 
 def showBnd : Bnd → String
   | .negInf => "-inf"
@@ -69,18 +84,28 @@ def showOut : Out → String
   | .strs l => "strs" ++ String.join (l.map (fun s => " " ++ showName s))
   | .val q => "val " ++ showQ q
 
-def showState (s : State) (ans : Ans) (ren : List (ObjId × Nat)) : List (ObjId × Nat) × String :=
+/-- an object-valued answer is printed as the entry of that object (numbered like every other) -/
+def showXOut (h : Store) (ren : List (ObjId × Nat)) : XOut → List (ObjId × Nat) × String
+  | .base o => (ren, showOut o)
+  | .obj i => let (r, t) := showList h ren [i]; (r, "obj" ++ t)
+  | .ub => (ren, "ub")
+  | .str s => (ren, "str " ++ showName s)
+
+def showState (s : State) (ans : XAns) (ren : List (ObjId × Nat)) : List (ObjId × Nat) × String :=
+  let (ren0, o) := showXOut s.heap ren ans.out
   let (ren1, f) := match ans.fired with
-    | none => (ren, " ; -")
-    | some l => let (r, t) := showList s.heap ren l; (r, " ; f" ++ t)
+    | none => (ren0, " ; -")
+    | some l => let (r, t) := showList s.heap ren0 l; (r, " ; f" ++ t)
   (List.range NREG).foldl (fun (acc : List (ObjId × Nat) × String) k =>
     let (r, t) := showList s.heap acc.1 (s.lists k)
     (r, acc.2 ++ " ;" ++ (if k ≥ NPLAIN then " pre=" ++ showName (s.pre k) else "") ++ t))
-    (ren1, showOut ans.out ++ f)
+    (ren1, o ++ f)
 
 /-! ### parsing -/
 
-def quarter? (s : String) : Option Rat := (int? s).map (fun n => (n : Rat) / 4)
+def quarter? (s : String) : Option Rat :=
+  if s.endsWith "'" then (int? (s.dropEnd 1).toString).map (fun n => (n : Rat) / 4 + nudge)
+  else (int? s).map (fun n => (n : Rat) / 4)
 
 def bnd? (s : String) : Option Bnd :=
   if s == "-inf" then some .negInf else if s == "+inf" then some .posInf else (quarter? s).map .fin
@@ -108,7 +133,7 @@ def isAp (k : Nat) : Bool := decide (NPLAIN ≤ k) && decide (k < NREG)
 def isReg (k : Nat) : Bool := decide (k < NREG)
 def isPlain (k : Nat) : Bool := decide (k < NPLAIN)
 
-def parseOp (t : List String) : Option Op :=
+def parseBase (t : List String) : Option Op :=
   match t with
   | ["add", k, n, q, c] => do let k ← nat? k; let p ← par? n q c; guard (isReg k); pure (.add k p)
   | ["addp", k, n, q, c] => do let k ← nat? k; let p ← par? n q c; guard (isReg k); pure (.addPtr k p)
@@ -123,8 +148,6 @@ def parseOp (t : List String) : Option Op :=
   | ["testvs", k, j] => do let k ← nat? k; let j ← nat? j; guard (isReg k && isReg j); pure (.testValues k j)
   | ["matchvs", k, j] => do let k ← nat? k; let j ← nat? j; guard (isReg k && isReg j); pure (.matchValues k j true)
   | ["matchvs0", k, j] => do let k ← nat? k; let j ← nat? j; guard (isReg k && isReg j); pure (.matchValues k j false)
-  | ["setallp", k, j] => do let k ← nat? k; let j ← nat? j; guard (isReg k && isReg j); pure (.setAllParams k j)
-  | ["setps", k, j] => do let k ← nat? k; let j ← nat? j; guard (isReg k && isReg j); pure (.setParams k j)
   | ["matchps", k, j] => do let k ← nat? k; let j ← nat? j; guard (isReg k && isReg j); pure (.matchParams k j)
   | ["del", k, n] => do let k ← nat? k; guard (isReg k); pure (.delName k (readName n))
   | "dels" :: k :: must :: ns => do let k ← nat? k; let b ← bool? must; guard (isReg k); pure (.delNames k (ns.map readName) b)
@@ -143,6 +166,20 @@ def parseOp (t : List String) : Option Op :=
   | ["getv", k, n] => do let k ← nat? k; guard (isReg k); pure (.getValue k (readName n))
   | ["size", k] => do let k ← nat? k; guard (isReg k); pure (.size k)
   | ["copy", k, j] => do let k ← nat? k; let j ← nat? j; guard (isReg k && isPlain j); pure (.copy k j)
+  -- `clone()` is `new ParameterList(*this)` (ParameterList.h:48)
+  | ["clone", k, j] => do let k ← nat? k; let j ← nat? j; guard (isReg k && isPlain j); pure (.copy k j)
+  -- the protected forwarders of AbstractParametrizable (h:111-157): one list-level call each
+  | ["ap.addp", k, n, q, c] => do let k ← nat? k; let p ← par? n q c; guard (isAp k); pure (.addPtr k p)
+  | ["ap.addall", k, j] => do let k ← nat? k; let j ← nat? j; guard (isAp k && isReg j); pure (.addAll k j)
+  | ["ap.share", k, j, n] => do let k ← nat? k; let j ← nat? j; guard (isAp k && isReg j); pure (.share k j (readName n))
+  | ["ap.shareall", k, j] => do let k ← nat? k; let j ← nat? j; guard (isAp k && isReg j); pure (.shareAll k j)
+  | ["ap.include", k, j] => do let k ← nat? k; let j ← nat? j; guard (isAp k && isReg j); pure (.incl k j)
+  | ["ap.deli", k, i] => do let k ← nat? k; let i ← nat? i; guard (isAp k); pure (.delIdx k i)
+  | ["ap.del", k, n] => do let k ← nat? k; guard (isAp k); pure (.delName k (readName n))
+  | "ap.dels" :: k :: ns => do let k ← nat? k; guard (isAp k); pure (.delNames k (ns.map readName) true)
+  | ["ap.reset", k] => do let k ← nat? k; guard (isAp k); pure (.reset k)
+  | ["ap.size", k] => do let k ← nat? k; guard (isAp k); pure (.size k)
+  | ["ap.names", k] => do let k ← nat? k; guard (isAp k); pure (.names k)
   | ["assign", k, j] => do let k ← nat? k; let j ← nat? j; guard (isReg k && isReg j); pure (.assign k j)
   | ["reset", k] => do let k ← nat? k; guard (isReg k); pure (.reset k)
   | ["ap.setallv", k, j] => do let k ← nat? k; let j ← nat? j; guard (isAp k && isReg j); pure (.apSetAll k j)
@@ -151,6 +188,20 @@ def parseOp (t : List String) : Option Op :=
   | ["ap.matchvs", k, j] => do let k ← nat? k; let j ← nat? j; guard (isAp k && isReg j); pure (.apMatch k j)
   | ["ap.ns", k, p] => do let k ← nat? k; guard (isAp k); pure (.apNamespace k (readName p))
   | _ => none
+
+def parseOp (t : List String) : Option XOp :=
+  match t with
+  | ["setallp", k, j] => do let k ← nat? k; let j ← nat? j; guard (isReg k && isReg j); pure (.setAllParamsA k j)
+  | ["setps", k, j] => do let k ← nat? k; let j ← nat? j; guard (isReg k && isReg j); pure (.setParamsA k j)
+  | ["at", k, i] => do let k ← nat? k; let i ← nat? i; guard (isReg k); pure (.nth k i)
+  | ["param", k, n] => do let k ← nat? k; guard (isReg k); pure (.param k (readName n))
+  | ["ap.addnull", k] => do let k ← nat? k; guard (isAp k); pure (.apAddNull k)
+  | ["ap.has", k, n] => do let k ← nat? k; guard (isAp k); pure (.apHas k (readName n))
+  | ["ap.param", k, n] => do let k ← nat? k; guard (isAp k); pure (.apParam k (readName n))
+  | ["ap.getv", k, n] => do let k ← nat? k; guard (isAp k); pure (.apGetValue k (readName n))
+  | ["ap.at", k, i] => do let k ← nat? k; let i ← nat? i; guard (isAp k); pure (.apAt k i)
+  | ["ap.nons", k, n] => do let k ← nat? k; guard (isAp k); pure (.apNameNoNs k (readName n))
+  | _ => (parseBase t).map .base
 
 def parseOut (t : List String) : Option Out :=
   match t with
@@ -180,14 +231,18 @@ def absorb (h : Store) (es : List (Par × Nat)) : Store :=
   es.foldl (fun h e => { cells := fun j => if j = e.2 then e.1 else h.cells j, next := max h.next (e.2 + 1) }) h
 
 /-- parse the implementation's answer into (out, fired, new implementation state) -/
-def parseImpl (prev : State) (t : List String) : Option (Out × Option (List ObjId) × State) :=
+def parseImpl (prev : State) (t : List String) : Option (XOut × Option (List ObjId) × State) :=
   match splitTok ";" t with
   | res :: fired :: regs =>
     if regs.length != NREG then none else do
-    let out ← parseOut res
+    let (h0, out) ← match res with
+      | ["obj", e] => do let e ← entry? e; pure (absorb prev.heap [e], XOut.obj e.2)
+      | ["ub"] => some (prev.heap, XOut.ub)
+      | ["str", s] => some (prev.heap, XOut.str (readName s))
+      | _ => (parseOut res).map (fun o => (prev.heap, XOut.base o))
     let (h1, f) ← match fired with
-      | ["-"] => some (prev.heap, none)
-      | "f" :: es => do let es ← entries? es; pure (absorb prev.heap es, some (es.map (·.2)))
+      | ["-"] => some (h0, none)
+      | "f" :: es => do let es ← entries? es; pure (absorb h0 es, some (es.map (·.2)))
       | _ => none
     -- registers
     let rec go (k : Nat) (regs : List (List String)) (s : State) : Option State :=
@@ -216,7 +271,7 @@ def step (s : St) (opToks : List String) (impl : Option (List String)) : St × S
   match parseOp opToks with
   | none => (s, "bad-op", "-")
   | some op =>
-    let (m', ans) := ParamList.step s.m op
+    let (m', ans) := ParamList.xstep s.m op
     let (ren', line) := showState m' ans s.ren
     match impl with
     | none => ({ s with m := m', ren := ren' }, line, "-")
@@ -225,7 +280,7 @@ def step (s : St) (opToks : List String) (impl : Option (List String)) : St × S
       else match parseImpl s.impl t with
         | none => ({ s with m := m', ren := ren', implOk := false }, line, "-")
         | some (out, fired, a) =>
-          let verdict := match checkStep NREG s.impl op out fired a with
+          let verdict := match xcheckStep NREG s.impl op out fired a with
             | none => "ok"
             | some c => "FAIL:" ++ c
           ({ m := m', ren := ren', impl := a, implOk := true }, line, verdict)
